@@ -112,6 +112,10 @@ def run(ctx):
             r.eq('%s:nowait-bit' % fnp, em[0].fields.get('nowait'), 'false' if waits else 'true', ctx.site(fnp),
                  why='a request sent without waiting but with nowait=false makes the server send a reply that the next synchronous call on the channel would receive')
 
+    with ctx.rule('R04.7', 'one slot (one reply queue) per open channel id: the allocator never hands an occupied id out twice (shared with C10)', floor=10) as r:
+        A.include(ctx, r, 'c10', 'R10.1')
+        A.include(ctx, r, 'c10', 'R10.2')
+
     with ctx.rule('R04.4', 'call = send on own sender, receive on own receiver, type-check; get / consume likewise', floor=6) as r:
         rows = P.table(ctx, H0 + 'call_message', ['self', 'message'])
         site = ctx.site(H0 + 'call_message')
